@@ -25,7 +25,7 @@ pub struct SteerApi<S: HasR, const N: usize> {
 
 macro_rules! steer_api {
     ($T:ident, $S:ty, $N:expr, rot: $rot:tt, three: $three:tt) => {{
-        let v = |a: [$S; $N]| <$T>::from_array(a);
+        let v = |a: [$S; $N]| <$T as crate::gen::FromLanes<$S, $N>>::mk(a);
         SteerApi::<$S, $N> {
             name: stringify!($T),
             lerp: Box::new(move |a, b, s| v(a).lerp(v(b), s).to_array()),
